@@ -29,4 +29,5 @@ def main(tier):
     chk.run("R-NAMEDKINDS", P.namedkinds, r, s, cx.sites, floor=10)
     chk.run("R-DEPORDER", B.deporder, r, clauses=("text", "ok"), floor=3)
     chk.run("R-CYCLEPATH", DR.cyclepath, cx.repo, floor=2)
+    chk.run("R-EDGEACC", DR.edgeacc, cx.repo, cx.schema, cx.sites, floor=3)
     return chk.finish()
